@@ -10,6 +10,8 @@ package gocql
 import (
 	"regexp"
 	"strings"
+	"sync"
+	"sync/atomic"
 	"time"
 )
 
@@ -31,7 +33,28 @@ func vfC17HardCapD() time.Duration { return 2*vfC17DeadlineD() + 10*time.Second 
 const (
 	vfC17QuietSamples = 5
 	vfC17SampleGap    = 600 * time.Millisecond
+	vfC17QuietTicks   = 1000 // canary ticks a quiet window must span as well (about 1 s on an idle machine)
 )
+
+// A canary goroutine that does nothing but sleep 1 ms and count: on an overloaded machine it advances as slowly as
+// every other goroutine, so "the canary advanced by N" is a load-normalised measure of how much chance the driver's
+// goroutines had to run.  Quiet windows must span a minimum of wall-clock time AND of canary ticks.
+var (
+	vfC17Ticks      int64
+	vfC17CanaryOnce sync.Once
+)
+
+func vfC17TickCount() int64 {
+	vfC17CanaryOnce.Do(func() {
+		go func() {
+			for {
+				time.Sleep(time.Millisecond)
+				atomic.AddInt64(&vfC17Ticks, 1)
+			}
+		}()
+	})
+	return atomic.LoadInt64(&vfC17Ticks)
+}
 
 // vfC17Settle: good() is polled with early exit.  act() counts lifecycle events, busy() says whether something
 // is known to be in flight (a dial, a fill).  Both may be nil.
@@ -61,11 +84,16 @@ func vfC17Settle(good func() bool, act func() int64, busy func() bool) vfC17Outc
 		if act != nil {
 			a0 = act()
 		}
-		for k := 0; k < vfC17QuietSamples; k++ {
+		t0 := vfC17TickCount()
+		for k := 0; k < vfC17QuietSamples || vfC17TickCount()-t0 < vfC17QuietTicks; k++ {
 			if good() {
 				return vfC17Good
 			}
 			if (busy != nil && busy()) || (act != nil && act() != a0) {
+				quiet = false
+				break
+			}
+			if !time.Now().Before(hard) {
 				quiet = false
 				break
 			}
@@ -118,7 +146,12 @@ func vfC17Hung(done <-chan struct{}, find func(dump string) string, act func() i
 		if act != nil {
 			a0 = act()
 		}
-		for k := 0; k < vfC17QuietSamples; k++ {
+		t0 := vfC17TickCount()
+		for k := 0; k < vfC17QuietSamples || vfC17TickCount()-t0 < vfC17QuietTicks; k++ {
+			if !time.Now().Before(hard) {
+				stable = false
+				break
+			}
 			select {
 			case <-done:
 				return vfC17Good, ""
